@@ -27,6 +27,9 @@ func runC07(c *Ctx) {
 	c.ruleOwnResponse("R07.3")
 	c.ruleIdentityImmutable("R07.4")
 	c.ruleNoSharedCaptures("R07.5")
+	c.ruleErrorAlwaysOffered("R07.6")
+	// the outcome is remembered by the sender before it is sent: every reader, however many, sees it
+	c.ruleResponse("R07.7")
 }
 
 // publicWorkerCtors: exported functions of package varmq whose first parameter is a function (the user's worker function).
@@ -540,6 +543,10 @@ func (c *Ctx) ruleIdentityImmutable(rule string) {
 			return true
 		})
 	}
+	// job options are applied only inside loadJobConfigs, and every job gets its own freshly loaded configs, loaded
+	// from the configuration of the worker the queue is bound to
+	c.ruleJobConfigsPerJob(rule, loadF)
+	c.ruleDefaultConfigsUnreachable(rule, loadF)
 	// WithJobId: assignment behind id != ""
 	if f := c.P.FuncByKey("WithJobId"); f != nil {
 		for _, lit := range c.P.Funcs {
@@ -632,4 +639,295 @@ func (c *Ctx) ruleIdentityImmutable(rule string) {
 	if n == 0 {
 		c.Rep.undecided(rule, "-", "no job literal", "", "no composite literal of the job struct sets id or data")
 	}
+}
+
+// ruleErrorAlwaysOffered: every failure that reaches sendError is offered on the error channel: every path of the
+// function reaches the (non-blocking) send. A path that returns early on some condition (the worker's status, a
+// counter) silently drops failures in that condition.
+func (c *Ctx) ruleErrorAlwaysOffered(rule string) {
+	R := c.R
+	c.Rep.rule(rule, "E2 must-pass-through", "every path of sendError reaches the send on the error channel", 1)
+	if R.SendErr == nil {
+		return
+	}
+	v := c.vocab([]string{"send(err)"}, nil)
+	n := 0
+	for _, sg := range v.seq(rule, false).segments(R.SendErr) {
+		if sg.Kind != "path" {
+			continue
+		}
+		n++
+	}
+	// the select is non-blocking: paths through its default clause do not perform the send but did offer it. What has
+	// to be excluded is a return that is not preceded by the select statement at all.
+	var sel *ast.SelectStmt
+	ast.Inspect(R.SendErr.Body, func(nd ast.Node) bool {
+		if s, ok := nd.(*ast.SelectStmt); ok && sel == nil {
+			for _, cl := range s.Body.List {
+				if cc, ok := cl.(*ast.CommClause); ok {
+					if snd, ok := cc.Comm.(*ast.SendStmt); ok && selField(R.SendErr.Info(), snd.Chan) == R.FErr {
+						sel = s
+					}
+				}
+			}
+		}
+		return true
+	})
+	if !c.Rep.check(sel != nil, rule, R.SendErr.Short(), "no send on the error channel", c.P.pos(R.SendErr.Body), "a select offers the error on the error channel", "sendError has no select that sends on the error channel") {
+		return
+	}
+	// the select is a top-level statement of the body and no return statement precedes it
+	top := false
+	for _, st := range R.SendErr.Body.List {
+		if st == ast.Stmt(sel) {
+			top = true
+			break
+		}
+		early := false
+		if is, ok := st.(*ast.IfStmt); ok && is.Else == nil {
+			// `if w.errorChan == nil { return }`: nothing to offer to
+			if be, ok := ast.Unparen(is.Cond).(*ast.BinaryExpr); ok && be.Op == token.EQL {
+				info := R.SendErr.Info()
+				if (selField(info, be.X) == R.FErr && info.Types[be.Y].IsNil()) || (selField(info, be.Y) == R.FErr && info.Types[be.X].IsNil()) {
+					continue
+				}
+			}
+		}
+		ast.Inspect(st, func(nd ast.Node) bool {
+			switch nd.(type) {
+			case *ast.FuncLit:
+				return false
+			case *ast.ReturnStmt:
+				early = true
+			}
+			return true
+		})
+		if es, ok := st.(*ast.ExprStmt); ok {
+			if call, ok := es.X.(*ast.CallExpr); ok && resolveCallee(R.SendErr.Info(), call).Builtin == "panic" {
+				early = true
+			}
+		}
+		c.Rep.check(!early, rule, R.SendErr.Short(), "sendError returns before offering the error", c.P.pos(st), "no return before the select",
+			"sendError returns on some condition before it offers the error on the channel: failures that occur in that condition (e.g. while the worker is pausing or stopping, when jobs are still in flight) never appear on Errs()")
+	}
+	c.Rep.check(top, rule, R.SendErr.Short(), "the send is conditional", c.P.pos(sel), "the select is reached on every path", "the select that offers the error is nested in a conditional: some failures are not offered on Errs()")
+	_ = n
+}
+
+// ruleJobConfigsPerJob: (a) a JobConfigFunc is only ever invoked by loadJobConfigs; (b) wherever a jobConfigs value is
+// passed on (to a job constructor), it is the result of a loadJobConfigs call made for that job: the call itself, or a
+// variable assigned from such a call inside the same loop iteration; (c) in a method of a queue that is bound to a
+// worker, the configuration handed to loadJobConfigs is that worker's (its id generator), not a default one.
+func (c *Ctx) ruleJobConfigsPerJob(rule string, loadF *Func) {
+	if loadF == nil {
+		return
+	}
+	R := c.R
+	isLoad := func(info *types.Info, e ast.Expr) *ast.CallExpr {
+		call, ok := ast.Unparen(e).(*ast.CallExpr)
+		if ok && resolveCallee(info, call).Key == loadF.Key {
+			return call
+		}
+		return nil
+	}
+	for _, f := range c.P.pkgFuncs(modPath) {
+		if f.Body == nil || f == loadF {
+			continue
+		}
+		info := f.Info()
+		// loops of f, to find the innermost one around a node
+		type span struct{ lo, hi token.Pos }
+		var loops []span
+		ast.Inspect(f.Body, func(n ast.Node) bool {
+			switch x := n.(type) {
+			case *ast.ForStmt:
+				loops = append(loops, span{x.Body.Pos(), x.Body.End()})
+			case *ast.RangeStmt:
+				loops = append(loops, span{x.Body.Pos(), x.Body.End()})
+			}
+			return true
+		})
+		inner := func(p token.Pos) span {
+			best := span{}
+			for _, l := range loops {
+				if l.lo <= p && p < l.hi && (best.lo == 0 || l.lo > best.lo) {
+					best = l
+				}
+			}
+			return best
+		}
+		ast.Inspect(f.Body, func(n ast.Node) bool {
+			call, ok := n.(*ast.CallExpr)
+			if !ok {
+				return true
+			}
+			if tv, ok := info.Types[call.Fun]; ok && !tv.IsType() && qualTypeName(tv.Type) == modPath+".JobConfigFunc" {
+				c.Rep.fail(rule, f.Short(), "job option applied outside loadJobConfigs", c.P.pos(call), f.Short()+" applies a job option itself: options are applied by loadJobConfigs to the fresh configs of one job (a configs value patched in place carries the previous job's id over when the option is a no-op, e.g. WithJobId(\"\"))")
+				return true
+			}
+			if call2 := isLoad(info, call); call2 != nil && len(call2.Args) >= 1 {
+				// (c) source of the configuration
+				if recvW := c.boundWorkerOf(f); recvW {
+					src := ast.Unparen(call2.Args[0])
+					good := false
+					if sc, ok := src.(*ast.CallExpr); ok {
+						if ce := resolveCallee(info, sc); ce.Fn != nil && ce.Fn.Name() == "configs" && ce.Recv != nil && c.isWorkerType(info.TypeOf(ce.Recv)) {
+							good = true
+						}
+					}
+					if selField(info, src) == R.FConfigs && R.FConfigs != "" {
+						good = true
+					}
+					c.Rep.check(good, rule, f.Short(), "job configs not loaded from the bound worker's configuration", c.P.pos(call2), "loadJobConfigs(<bound worker>.configs(), ...)",
+						f.Short()+" belongs to a queue that is bound to a worker but loads the job configs from "+types.ExprString(src)+": the worker's job id generator is not consulted, jobs without an explicit id get the default (empty) one")
+				}
+				return true
+			}
+			if ce := resolveCallee(info, call); ce.Builtin != "" {
+				return true
+			}
+			for _, a := range call.Args {
+				if qualTypeName(info.TypeOf(a)) != modPath+".jobConfigs" {
+					continue
+				}
+				if _, isLit := ast.Unparen(a).(*ast.CompositeLit); isLit {
+					continue // who may build a literal is checked above
+				}
+				if isLoad(info, a) != nil {
+					c.Rep.ok(rule, f.Short()+": job configs loaded for this job", c.P.pos(a), "argument is a loadJobConfigs call", true)
+					continue
+				}
+				good := false
+				if id, ok := ast.Unparen(a).(*ast.Ident); ok {
+					if obj := info.ObjectOf(id); obj != nil {
+						here := inner(call.Pos())
+						all, cnt := true, 0
+						ast.Inspect(f.Body, func(m ast.Node) bool {
+							as, ok := m.(*ast.AssignStmt)
+							if !ok {
+								return true
+							}
+							for i, l := range as.Lhs {
+								if lid, ok := l.(*ast.Ident); ok && info.ObjectOf(lid) == obj {
+									cnt++
+									if len(as.Rhs) != len(as.Lhs) || isLoad(info, as.Rhs[i]) == nil || inner(as.Pos()) != here {
+										all = false
+									}
+								}
+							}
+							return true
+						})
+						if p, isParam := obj.(*types.Var); isParam && cnt == 0 && p.Pos() < f.Body.Pos() {
+							good = true // a parameter: the caller is checked at its own call site
+						} else {
+							good = all && cnt > 0
+						}
+					}
+				}
+				c.Rep.check(good, rule, f.Short(), "job configs not loaded per job", c.P.pos(a), "configs variable assigned from loadJobConfigs in the same iteration",
+					f.Short()+" passes a jobConfigs value that was not loaded for this job (loaded once outside the loop, or built elsewhere): the id generator runs once per batch and ids leak from one item to the next")
+			}
+			return true
+		})
+	}
+}
+
+// ruleDefaultConfigsUnreachable: a function that loads job configs from a default configuration (legitimate for a
+// distributed producer, which has no worker) is not reachable from a method of a queue that is bound to a worker.
+func (c *Ctx) ruleDefaultConfigsUnreachable(rule string, loadF *Func) {
+	if loadF == nil {
+		return
+	}
+	R := c.R
+	defaults := map[*Func]bool{}
+	for _, cs := range c.P.allCalls(false) {
+		if cs.Callee.Key != loadF.Key || len(cs.Call.Args) == 0 || cs.In.Pkg.PkgPath != modPath {
+			continue
+		}
+		info := cs.In.Info()
+		src := ast.Unparen(cs.Call.Args[0])
+		fromWorker := selField(info, src) == R.FConfigs && R.FConfigs != ""
+		if sc, ok := src.(*ast.CallExpr); ok {
+			if ce := resolveCallee(info, sc); ce.Fn != nil && ce.Fn.Name() == "configs" && ce.Recv != nil && c.isWorkerType(info.TypeOf(ce.Recv)) {
+				fromWorker = true
+			}
+		}
+		if !fromWorker {
+			defaults[cs.In.Root()] = true
+		}
+	}
+	// propagate to callers
+	for changed := true; changed; {
+		changed = false
+		for _, cs := range c.P.allCalls(false) {
+			if cs.In.Pkg.PkgPath != modPath {
+				continue
+			}
+			g := c.P.byObj[cs.Callee.Key]
+			if g == nil || !defaults[g] {
+				continue
+			}
+			in := cs.In.Root()
+			if c.boundWorkerOf(in) {
+				c.Rep.fail(rule, in.Short(), "job built from a default configuration", c.P.pos(cs.Call),
+					in.Short()+" belongs to a queue bound to a worker but builds its job through "+g.Short()+", which loads the job configs from a default configuration: the worker's job id generator is not consulted")
+				continue
+			}
+			if !defaults[in] {
+				defaults[in] = true
+				changed = true
+			}
+		}
+	}
+}
+
+// isWorkerType: the worker struct (possibly behind a pointer) or the library's Worker interface.
+func (c *Ctx) isWorkerType(t types.Type) bool {
+	n := namedOf(t)
+	if n == nil {
+		return false
+	}
+	return n.Obj() == c.R.WorkerT.Obj() || qualTypeName(n) == modPath+".Worker"
+}
+
+// boundWorkerOf: f is a method whose receiver (through embedded structs) has a field of type *worker.
+func (c *Ctx) boundWorkerOf(f *Func) bool {
+	if f.Obj == nil {
+		return false
+	}
+	sig, _ := f.Obj.Type().(*types.Signature)
+	if sig == nil || sig.Recv() == nil {
+		return false
+	}
+	var has func(t types.Type, depth int) bool
+	has = func(t types.Type, depth int) bool {
+		if depth > 4 {
+			return false
+		}
+		if p, ok := t.Underlying().(*types.Pointer); ok {
+			t = p.Elem()
+		}
+		if c.isWorkerType(t) {
+			return true
+		}
+		st, ok := t.Underlying().(*types.Struct)
+		if !ok {
+			return false
+		}
+		for i := 0; i < st.NumFields(); i++ {
+			fl := st.Field(i)
+			ft := fl.Type()
+			if p, ok := ft.Underlying().(*types.Pointer); ok {
+				ft = p.Elem()
+			}
+			if c.isWorkerType(ft) {
+				return true
+			}
+			if fl.Embedded() && has(fl.Type(), depth+1) {
+				return true
+			}
+		}
+		return false
+	}
+	return has(sig.Recv().Type(), 0)
 }
